@@ -24,6 +24,11 @@ type c10Scenario struct {
 	Reject  bool       `json:"policy_rejects_b,omitempty"` // ... and it rejects the second value of every two-value batch
 	Kind    string     `json:"kind,omitempty"`
 	Idx     bool       `json:"index_options,omitempty"` // negative and forward indices are switched on
+	// Peer: a second mutex-enabled stack stands next to the shared one and elements are transferred between
+	// the two (and from the shared stack onto itself). A Transfer of several elements is a series of pushes,
+	// not one atomic operation, so these scenarios are judged on everything but serialisability: no panic,
+	// no deadlock, lock protocol, every write to the shared stack inside its own locked section.
+	Peer bool `json:"peer_stack,omitempty"`
 }
 
 func (sc c10Scenario) String() string {
@@ -37,6 +42,9 @@ func (sc c10Scenario) String() string {
 	}
 	if sc.Idx {
 		pol += " index-options"
+	}
+	if sc.Peer {
+		pol += " peer-stack"
 	}
 	return fmt.Sprintf("%s len=%d fifo=%v cap=%d%s {%s}", sc.Kind, sc.InitLen, sc.FIFO, sc.Cap, pol, strings.Join(p, " || "))
 }
@@ -84,6 +92,28 @@ func c10Op(name, tok string) (run func(s stackage.Stack) string, model func(m *l
 		return func(s stackage.Stack) string { s.Reverse(); return "" }, func(m *listModel) string { m.reverse(); return "" }
 	case "Reset":
 		return func(s stackage.Stack) string { s.Reset(); return "" }, func(m *listModel) string { m.reset(); return "" }
+	case "TransferIn": // a private one-element stack transferred into the shared one: one push, under its lock
+		// (Transfer's own verdict compares lengths it reads outside the lock and is not among the calls the
+		// statement lists: only what happens to the shared content is judged)
+		return func(s stackage.Stack) string { stackage.Basic().Push(a).Transfer(s); return "" }, func(m *listModel) string {
+				if !(m.capk > 0 && len(m.items)+1 > m.capk) {
+					m.push(a)
+				}
+				return ""
+			}
+	case "TransferToPeer", "TransferFromPeer", "TransferSelf": // peer scenarios only (no reference outcome)
+		return func(s stackage.Stack) string {
+			peer, _ := s.Auxiliary()["peer"].(stackage.Stack)
+			switch name {
+			case "TransferToPeer":
+				s.Transfer(peer)
+			case "TransferFromPeer":
+				peer.Transfer(s)
+			default:
+				s.Transfer(StackAlias(s))
+			}
+			return ""
+		}, nil
 	case "SetMutex":
 		// enabling locking again on a stack that already locks must be a no-op
 		return func(s stackage.Stack) string { s.SetMutex(); return "" }, func(m *listModel) string { return "" }
@@ -117,6 +147,9 @@ func (sc c10Scenario) mk() stackage.Stack {
 		s.SetNegativeIndices(true).SetForwardIndices(true)
 	}
 	s.Push(sc.initial()...)
+	if sc.Peer {
+		s.SetAuxiliary(stackage.Auxiliary{"peer": stackage.List().Push("p0", "p1").SetMutex()})
+	}
 	s.SetMutex()
 	if sc.Policy {
 		rej := sc.Reject
@@ -216,7 +249,10 @@ func (sc c10Scenario) accounting(x *execResult) []string {
 }
 
 func c10Check(c *Ctx, sc c10Scenario, bound int, count bool) (execs int, complete bool) {
-	allowed := sc.sequentialOutcomes()
+	var allowed map[string]bool
+	if !sc.Peer {
+		allowed = sc.sequentialOutcomes()
+	}
 	sig := sc.opSig()
 	size := len(sc.String())
 	distinct := map[string]bool{}
@@ -253,7 +289,7 @@ func c10Check(c *Ctx, sc c10Scenario, bound int, count bool) (execs int, complet
 		for _, b := range sc.accounting(x) {
 			c.Violation(b+":"+sig, desc(b+": "+o), rep, size+len(x.choices))
 		}
-		if !allowed[o] {
+		if !sc.Peer && !allowed[o] {
 			var al []string
 			for k := range allowed {
 				al = append(al, k)
@@ -361,6 +397,21 @@ func c10Scenarios(c *Ctx) (out []c10Scenario, bounds []int) {
 			}
 			out = append(out, c10Scenario{InitLen: cf[0], FIFO: cf[1] == 1, Cap: cf[2], Progs: [][]string{{"Push12"}, {"Push12"}}, Policy: pol})
 			bounds = append(bounds, -1)
+		}
+	}
+	// elements arriving through Transfer: from a private stack (one push: judged like any mutator), and
+	// between the shared stack and a mutex-enabled peer, in both directions and onto itself
+	for _, cf := range cfgs(2) {
+		for _, b := range append([]string{"TransferIn"}, ops[:10]...) {
+			add(cf, -1, []string{"TransferIn"}, []string{b})
+		}
+		if cf[2] != 0 {
+			continue
+		}
+		for _, progs := range [][][]string{{{"TransferToPeer"}, {"TransferFromPeer"}}, {{"TransferToPeer"}, {"TransferFromPeer"}, {"Pop"}}, {{"TransferFromPeer"}, {"Push1"}}, {{"TransferFromPeer"}, {"Pop"}},
+			{{"TransferSelf"}, {"Push1"}}, {{"TransferSelf"}, {"TransferSelf"}}, {{"TransferToPeer", "Push1"}, {"TransferFromPeer", "Pop"}}, {{"TransferSelf"}, {"TransferFromPeer"}}} {
+			out = append(out, c10Scenario{InitLen: cf[0], FIFO: cf[1] == 1, Progs: progs, Peer: true})
+			bounds = append(bounds, 2)
 		}
 	}
 	if c.Quick() {
